@@ -358,12 +358,52 @@ def _eval_guard(test, var, value):
     return None
 
 
+def _always_leaves(stmts):
+    """The statement list cannot complete normally (ends in return / raise / continue / break on every path)."""
+    if not stmts:
+        return False
+    s = stmts[-1]
+    if isinstance(s, (ast.Return, ast.Raise, ast.Continue, ast.Break)):
+        return True
+    if isinstance(s, ast.If):
+        return _always_leaves(s.body) and _always_leaves(s.orelse)
+    if isinstance(s, ast.With):
+        return _always_leaves(s.body)
+    return False
+
+
+def _sibling_lists(p):
+    for field in ("body", "orelse", "finalbody"):
+        lst = getattr(p, field, None)
+        if isinstance(lst, list):
+            yield lst
+    for h in getattr(p, "handlers", []) or []:
+        yield h.body
+    for c in getattr(p, "cases", []) or []:
+        yield c.body
+
+
 def path_condition(mod, stmt, root):
-    """[(test, polarity)] of the If statements enclosing `stmt` below `root`."""
+    """[(test, polarity)] of the If statements enclosing `stmt` below `root`, plus the negations of the early-exit
+    guards that precede it: after `if c: return` the following statements run only when c is false, exactly as if
+    they were the else-branch."""
     conds = []
     child = stmt
     p = mod.parent.get(stmt)
-    while p is not None and p is not root:
+    while p is not None:
+        # early-exit guards among the preceding siblings of `child`
+        for lst in _sibling_lists(p):
+            idx = next((i for i, x in enumerate(lst) if x is child), None)
+            if idx is None:
+                continue
+            for prev in lst[:idx]:
+                if isinstance(prev, ast.If):
+                    if _always_leaves(prev.body) and not _always_leaves(prev.orelse):
+                        conds.append(_positive(prev.test, False))
+                    elif prev.orelse and _always_leaves(prev.orelse) and not _always_leaves(prev.body):
+                        conds.append(_positive(prev.test, True))
+        if p is root:
+            break
         if isinstance(p, ast.If):
             if any(child is s for s in p.body):
                 conds.append(_positive(p.test, True))
